@@ -230,8 +230,8 @@ def split_index_facts(lst, j, st):
     s, sz, off, n = lst.split_positions
     arr = lst.arr
     if not isinstance(j, int):
-        # a symbolic index: the piece read lies inside the text
-        st.fact(z3.Implies(z3.And(0 <= j, j < n), z3.And(off[j] >= 0, off[j] + z3.Length(arr[j]) <= z3.Length(s))))
+        # a symbolic index: the piece read lies inside the text, at its offset
+        st.fact(z3.Implies(z3.And(0 <= j, j < n), z3.And(off[j] >= 0, off[j] + z3.Length(arr[j]) <= z3.Length(s), arr[j] == z3.SubString(s, off[j], z3.Length(arr[j])))))
         return
     st.fact(z3.Implies(j < n, z3.And(off[j] >= 0, off[j] + z3.Length(arr[j]) <= z3.Length(s))))
     for i in range(min(j, 8) + 1):
